@@ -805,6 +805,14 @@ def mutate_builder(b, rng):
     cs = containers(b.data)
     names = [d.get("name") for d in b.data.get("demes", []) if is_map(d)] if isinstance(b.data.get("demes"), list) else []
     try:
+        if rng.random() < 0.1:
+            # values the Builder's add_* methods convert on the way in, placed where resolve() finds them untouched
+            dflt = b.data.setdefault("defaults", {})
+            if is_map(dflt):
+                sec = dflt.setdefault(rng.choice(["deme", "migration"]), {})
+                if is_map(sec):
+                    sec["start_time"] = rng.choice(["Infinity", "Infinity", math.inf, None])
+                    return "set defaults start_time"
         if r < 0.12:
             ep = rng.choice([c for c in cs if isinstance(c, list)] or [[]])
             b.add_deme(rng.choice(["N1", "N2", "A", "B"]), ancestors=rng.choice([None, [n for n in names[:1] if isinstance(n, str)]]),
